@@ -1,0 +1,21 @@
+//go:build verif
+
+package regexp2
+
+// VerifSlotOf reports which element of Groups() the pointer g (as returned by GroupByNumber or
+// GroupByName on the same Match) designates: 0 for the whole match, i for otherGroups[i-1],
+// -1 if it is not one of this Match's groups.  Read-only accessor for the correspondence harness.
+func (m *Match) VerifSlotOf(g *Group) int {
+	if g == nil {
+		return -1
+	}
+	if g == &m.Group {
+		return 0
+	}
+	for i := range m.otherGroups {
+		if g == &m.otherGroups[i] {
+			return i + 1
+		}
+	}
+	return -1
+}
